@@ -136,6 +136,39 @@ func (e *Exec) externalEnv(fr *Frame, st State, fn *ssa.Function, args []Val, po
 		st = e.ghostInc(st, "ndatagram")
 		e.assumed["assumed contract: (*net.UDPConn).ReadFromUDP returns 0 <= n <= len(b) and a non-nil sender on success"] = true
 		return []Outcome{{st: st, ret: Val{n, addr[0], err[0], err[1]}}}, true
+	case "net.SplitHostPort":
+		// assumed: (host, port, nil) with some strings, or ("", "", err)
+		s1, h := e.freshString(st, "host")
+		s1, p := e.freshString(s1, "port")
+		okOut := Outcome{st: s1, ret: Val{h[0], h[1], p[0], p[1], c.Const(64, 0), c.Const(64, 0)}}
+		s2, ev := e.freshError(st, "splithostport")
+		z := c.Const(64, 0)
+		return []Outcome{okOut, {st: s2, ret: Val{z, z, z, z, ev[0], ev[1]}}}, true
+	case "net.ParseIP":
+		// assumed: nil, or a fresh 16-byte (or 4-byte) slice
+		n := c.Fresh("iplen", BV(64))
+		s1 := st.assume(c.Or(c.Eq(n, c.Const(64, 16)), c.Eq(n, c.Const(64, 4))))
+		s1, a := e.alloc(s1, n, "ip")
+		arr := c.Fresh("ip.data", Sort{KArr, 8})
+		s1.h[0] = s1.h[0].push(HeapLayer{kind: lHavoc, addr: a, n: n, arr: arr})
+		z := c.Const(64, 0)
+		return []Outcome{{st: s1, ret: Val{a, n, n}}, {st: st, ret: Val{z, z, z}}}, true
+	case "(net.IP).To4":
+		// assumed: nil, or a 4-byte slice (a fresh copy here; the real one may alias its
+		// receiver, which no caller in this module writes through)
+		s1, a := e.alloc(st, c.Const(64, 4), "ip4")
+		arr := c.Fresh("ip4.data", Sort{KArr, 8})
+		s1.h[0] = s1.h[0].push(HeapLayer{kind: lHavoc, addr: a, n: c.Const(64, 4), arr: arr})
+		z := c.Const(64, 0)
+		return []Outcome{{st: s1, ret: Val{a, c.Const(64, 4), c.Const(64, 4)}}, {st: st, ret: Val{z, z, z}}}, true
+	case "strconv.ParseUint":
+		// assumed: a value that fits bitSize (also on a range error), and possibly an error
+		v := c.Fresh("parseuint", BV(64))
+		bs := e.ext(args[2][0], types.Typ[types.Int], 64)
+		fits := c.Or(c.Eq(bs, c.Const(64, 0)), c.Ule(c.Const(64, 64), bs), c.Ult(v, c.Shl(c.Const(64, 1), bs)))
+		s1 := st.assume(fits)
+		s2, ev := e.freshError(s1, "parseuint")
+		return []Outcome{{st: s1, ret: Val{v, c.Const(64, 0), c.Const(64, 0)}}, {st: s2, ret: Val{v, ev[0], ev[1]}}}, true
 	case "(net.IP).Equal", "(net.IP).IsMulticast":
 		return []Outcome{{st: st, ret: Val{c.Fresh("ipcmp", Bool)}}}, true
 	case "bufio.NewReader":
